@@ -86,6 +86,31 @@ fn check_c04(l: &Ledger, e: &[(String, String)], _s: &PropSpec) -> Vec<Violation
             out.push(Violation { prop: "C04", key: v.key.replace("C13/", "C04/client-built-mac:"), step: v.step, detail: v.detail });
         }
     }
+    // a delivery tampered by the client-side sweep (plan entry `override`) must not be delivered
+    for st in &l.steps {
+        if let Call::Recv { bytes, fault, .. } = &st.call {
+            if fault.ends_with("(sweep)") {
+                if let Ok(p) = crate::wire::parse(bytes) {
+                    if st.events.iter().any(|e| matches!(e, Ev::Received(m) if m.class >= 2 && m.id == p.txid)) {
+                        // which byte was flipped is in the plan entry
+                        let pos = e.iter().find(|(k, _)| k == "override").map(|(_, v)| crate::plan::kv_u64(&crate::plan::parse_kv(v), "pos", 0)).unwrap_or(0) as usize;
+                        // the region is computed on the untampered structure: flip back
+                        let mut orig = bytes.clone();
+                        if pos / 8 < orig.len() {
+                            orig[pos / 8] ^= 1 << (pos % 8);
+                        }
+                        let region = crate::wire::parse(&orig).map(|po| crate::oracle_tap::region_name(&po, pos / 8)).unwrap_or("?");
+                        out.push(Violation {
+                            prop: "C04",
+                            key: format!("C04/client-delivered-tampered-response(region={})", region),
+                            step: st.idx,
+                            detail: format!("step {}: a response tampered in flight (bit {}) was delivered", st.idx, pos),
+                        });
+                    }
+                }
+            }
+        }
+    }
     // misplaced or repeated integrity attributes must not slip through a validating decoder that keeps them
     if let crate::server::Mech::ShortTerm(_) = l.cfg.mech {
         let lk = crate::libtap::short_term_key(&l.cfg.password);
